@@ -10,13 +10,12 @@ EXTENDS Design, Json, IOUtils
 
 Cases == JsonDeserialize(IOEnv.VERIF_CASES)
 NC == Len(Cases)
-\* see MCEnum for why the normal forms live in TLC registers
-FNDef == TLCEval([d \in 1..NC |-> NormFactors(Cases[d].factors)])
-NBDef(fn) == TLCEval([d \in 1..NC |-> NormTop(fn[d], Cases[d].block)])
-ASSUME /\ TLCSet(1, FNDef)
-       /\ TLCSet(2, NBDef(TLCGet(1)))
-FN == TLCGet(1)
-NB == TLCGet(2)
+\* per-case normal forms, computed once by MCNorm (phase 0) and read back as constants
+\* (kept in a TLC register: TLC re-evaluates IODeserialize at every mention otherwise)
+ASSUME TLCSet(1, IODeserialize(IOEnv.VERIF_NORM, FALSE))
+Pre == TLCGet(1)
+FN == Pre[1]
+NB == Pre[2]
 
 VARIABLES c, i, seq, verdict
 vars == <<c, i, seq, verdict>>
@@ -56,5 +55,6 @@ Info == LET nb == NB[c] IN
         ELSE <<"NB", c, FALSE, nb.err>>
 
 Report == /\ (verdict = "info") => PrintT(Info)
-          /\ (verdict \notin {"info", "run"}) => PrintT(<<"V", c, i, verdict>>)
+          /\ (verdict \notin {"info", "run"}) =>
+                 PrintT(<<"V", c, i, verdict, IF verdict = "ok" THEN Mult(FN[c], NB[c], seq) ELSE 0>>)
 =============================================================================
